@@ -305,8 +305,9 @@ pub open spec fn maps_match(cs: Seq<SupportedCone<F>>, maps: Seq<SparseExpansion
 // the LDL engine behind the KKT solver: stand-in and vocabulary of unit kkt_reg (same text), plus a ghost NAME for refactor's verdict
 // =====================================================================================================================
 // stand-in for Box<dyn DirectLDLSolver<T> + Send + Sync> (trait object): the engine keeps its own copy of the values.
-// Ghost view `copy`: that copy, indexed like KKT.nzval; ghost `flag`: the verdict of the last refactor (a name for its return value).
-pub struct BoxedDirectLDLSolver<T> { pub _p: Option<T>, pub copy: Ghost<Seq<T>>, pub flag: Ghost<bool> }
+// Ghost view `copy`: that copy, indexed like KKT.nzval; ghost `flag`: the verdict of the last refactor (a name for its return value);
+// ghost `log`: history variable -- the (cone, map) pairs of the csc_update_sparsecone calls this engine was handed to, in order.
+pub struct BoxedDirectLDLSolver<T> { pub _p: Option<T>, pub copy: Ghost<Seq<T>>, pub flag: Ghost<bool>, pub log: Ghost<Seq<(SupportedCone<T>, SparseExpansionMap)>> }
 pub open spec fn upd_n(index: Seq<usize>, values: Seq<F>) -> int { if index.len() < values.len() { index.len() as int } else { values.len() as int } }
 // `after` is `before` with values[k] written to slot index[k], k = 0..n, in order
 pub open spec fn is_update(before: Seq<F>, after: Seq<F>, index: Seq<usize>, values: Seq<F>) -> bool {
@@ -324,15 +325,15 @@ pub open spec fn in_idx(index: Seq<usize>, s: int) -> bool { exists|k: int| 0 <=
 impl BoxedDirectLDLSolver<F> {
     #[verifier::external_body] pub fn update_values(&mut self, index: &[usize], values: &[F])
         requires forall|k: int| 0 <= k < index@.len() ==> index@[k] < old(self).copy@.len(),
-        ensures is_update(old(self).copy@, final(self).copy@, index@, values@), final(self).flag == old(self).flag,
+        ensures is_update(old(self).copy@, final(self).copy@, index@, values@), final(self).flag == old(self).flag, final(self).log == old(self).log,
     { unimplemented!() }
     #[verifier::external_body] pub fn scale_values(&mut self, index: &[usize], scale: F)
         requires forall|k: int| 0 <= k < index@.len() ==> index@[k] < old(self).copy@.len(),
             forall|a: int, b: int| 0 <= a < b < index@.len() ==> index@[a] != index@[b],
-        ensures is_scaling(old(self).copy@, final(self).copy@, index@, scale), final(self).flag == old(self).flag,
+        ensures is_scaling(old(self).copy@, final(self).copy@, index@, scale), final(self).flag == old(self).flag, final(self).log == old(self).log,
     { unimplemented!() }
     #[verifier::external_body] pub fn refactor(&mut self, kkt: &CscMatrix<F>) -> (r: bool)
-        ensures final(self).copy@ == old(self).copy@, r == final(self).flag@,
+        ensures final(self).copy@ == old(self).copy@, r == final(self).flag@, final(self).log == old(self).log,
     { unimplemented!() }
 }
 // every slot that is written at all has a last writer
@@ -360,7 +361,7 @@ pub open spec fn reg_shift(v: F, eps: F, sign: i8) -> F { if sign == 1 { f_add(v
 //@contract
     requires forall|k: int| 0 <= k < index@.len() ==> index@[k] < old(KKT).nzval@.len(), old(ldlsolver).copy@.len() == old(KKT).nzval@.len(),
     ensures
-        final(KKT).same_pattern(old(KKT)), final(ldlsolver).flag == old(ldlsolver).flag,
+        final(KKT).same_pattern(old(KKT)), final(ldlsolver).flag == old(ldlsolver).flag, final(ldlsolver).log == old(ldlsolver).log,
         // C08: the same update reaches the LDL engine's own copy
         is_update(old(ldlsolver).copy@, final(ldlsolver).copy@, index@, values@), is_update(old(KKT).nzval@, final(KKT).nzval@, index@, values@),
         ({ let n = if index@.len() < values@.len() { index@.len() as int } else { values@.len() as int };
@@ -374,6 +375,7 @@ pub open spec fn reg_shift(v: F, eps: F, sign: i8) -> F { if sign == 1 { f_add(v
     ensures
         final(KKT).same_pattern(old(KKT)),
         is_scaling(old(ldlsolver).copy@, final(ldlsolver).copy@, index@, scale), is_scaling(old(KKT).nzval@, final(KKT).nzval@, index@, scale),
+        final(ldlsolver).log == old(ldlsolver).log,
 //@end
 
 // =====================================================================================================================
@@ -475,6 +477,10 @@ impl<'a> SparseExpansionCone<'a, F> {
         }
     }
     pub uninterp spec fn sx_update_rel(&self, map: SparseExpansionMap, nz0: Seq<F>, nz1: Seq<F>, c0: Seq<F>, c1: Seq<F>) -> bool;
+    // the cone this expansion object borrows
+    pub open spec fn cone(&self) -> SupportedCone<F> {
+        match self { SparseExpansionCone::SecondOrderCone(s) => SupportedCone::SecondOrderCone(**s), SparseExpansionCone::GenPowerCone(g) => SupportedCone::GenPowerCone(**g) }
+    }
     #[verifier::external_body]
     pub fn csc_update_sparsecone<U, S>(&self, map: &SparseExpansionMap, ldl: &mut BoxedDirectLDLSolver<F>, K: &mut CscMatrix<F>, updateFcn: U, scaleFcn: S)
         requires self.kind_ok(*map), slots_below(*map, old(K).nzval@.len() as int), old(ldl).copy@.len() == old(K).nzval@.len(),
@@ -483,12 +489,20 @@ impl<'a> SparseExpansionCone<'a, F> {
             forall|s: int| 0 <= s < old(K).nzval@.len() && !map_slot(*map, s) ==> #[trigger] final(K).nzval@[s] == old(K).nzval@[s],
             forall|s: int| 0 <= s < old(K).nzval@.len() && !map_slot(*map, s) ==> #[trigger] final(ldl).copy@[s] == old(ldl).copy@[s],
             self.sx_update_rel(*map, old(K).nzval@, final(K).nzval@, old(ldl).copy@, final(ldl).copy@),
+            // history variable: this call is recorded
+            final(ldl).log@ == old(ldl).log@.push((self.cone(), *map)), final(ldl).flag == old(ldl).flag,
     { unimplemented!() }
 }
 
 // =====================================================================================================================
 // the KKT solver object
 // =====================================================================================================================
+// the sparse-cone updates `update` has to perform: every sparse-expandable cone, in the order of the cone list, each with the next sparse map
+pub open spec fn sx_events(cs: Seq<SupportedCone<F>>, maps: Seq<SparseExpansionMap>, k: int) -> Seq<(SupportedCone<F>, SparseExpansionMap)>
+    decreases k
+{
+    if k <= 0 { Seq::empty() } else if cs[k - 1].sparse_s() { sx_events(cs, maps, k - 1).push((cs[k - 1], maps[sparse_before(cs, k - 1)])) } else { sx_events(cs, maps, k - 1) }
+}
 pub open spec fn idx_below(index: Seq<usize>, n: int) -> bool { forall|k: int| 0 <= k < index.len() ==> #[trigger] index[k] < n }
 pub open spec fn all_zero(v: Seq<F>, n: int) -> bool { v.len() == n && forall|i: int| 0 <= i < n ==> #[trigger] v[i] == f_zero() }
 pub open spec fn negated(hs: Seq<F>) -> Seq<F> { Seq::new(hs.len(), |i: int| f_neg(hs[i])) }
@@ -551,7 +565,7 @@ impl DirectLDLKKTSolver<F> {
         !settings.static_regularization_enable ==> final(self).ldlsolver.copy@ == old(self).ldlsolver.copy@,
         // (added to the contract of unit kkt_reg) the verdict returned is the verdict of the engine's refactor; nothing but KKT values, work vectors,
         // engine and regulariser is touched
-        r == final(self).ldlsolver.flag@,
+        r == final(self).ldlsolver.flag@, final(self).ldlsolver.log == old(self).ldlsolver.log,
         *final(self) == (DirectLDLKKTSolver::<F> { KKT: final(self).KKT, work1: final(self).work1, work2: final(self).work2, ldlsolver: final(self).ldlsolver, diagonal_regularizer: final(self).diagonal_regularizer, ..*old(self) }),
         final(self).work1@.len() == old(self).work1@.len(), final(self).work2@.len() == old(self).work2@.len(),
 //@pre
@@ -621,6 +635,8 @@ impl DirectLDLKKTSolver<F> {
             forall|k: int| last_writer(old(self).map.diag_full@, old(self).map.diag_full@.len() as int, k) ==>
                 final(self).ldlsolver.copy@[#[trigger] old(self).map.diag_full@[k] as int]
                     == reg_shift(final(self).KKT.nzval@[old(self).map.diag_full@[k] as int], final(self).diagonal_regularizer, old(self).dsigns@[k]),
+        // every sparse-expandable cone has been handed to csc_update_sparsecone exactly once, in order, each with the next sparse map
+        final(self).ldlsolver.log@ == old(self).ldlsolver.log@ + sx_events(cones.cones@, old(self).map.sparse_maps@, cones.cones@.len() as int),
         // C12: the result is the verdict of the engine's refactorisation
         r == final(self).ldlsolver.flag@,
 //@pre
@@ -629,13 +645,18 @@ impl DirectLDLKKTSolver<F> {
         let ghost nz = self.KKT.nzval@.len() as int;
         let ghost hidx = self.map.Hsblocks@;
         let ghost didx = self.map.diag_full@;
-//@after "cones.get_Hs(&mut self.Hsblocks);"
-        let ghost hs = self.Hsblocks@;
-//@after "_update_values(&mut self.ldlsolver, &mut self.KKT, index, values);"
-        let ghost K1 = self.KKT;
-        let ghost C1 = self.ldlsolver.copy@;
-        let ghost vals = self.Hsblocks@;
+        // (ghost snapshots are declared here and assigned where they are taken: the //@post block sits outside the body's scope)
+        let ghost mut hs: Seq<F> = self.Hsblocks@;
+        let ghost mut vals: Seq<F> = self.Hsblocks@;
+        let ghost mut K1 = self.KKT;
+        let ghost mut C1: Seq<F> = self.ldlsolver.copy@;
+        let ghost mut K2 = self.KKT;
+        let ghost mut C2: Seq<F> = self.ldlsolver.copy@;
+//@before "let (values, index) ="
+        proof { hs = self.Hsblocks@; }
+//@before "let mut sparse_map_iter ="
         proof {
+            K1 = self.KKT; C1 = self.ldlsolver.copy@; vals = self.Hsblocks@; K2 = K1; C2 = C1;
             assert(vals =~= negated(hs));
             lemma_sparse_before_mono(cs, 0, cs.len() as int);
             assert(cones.cones@.len() == cones.cones.len());
@@ -650,10 +671,14 @@ it
             KKT.same_pattern(&K1), KKT.nzval@.len() == nz, ldl.copy@.len() == nz, C1.len() == nz, K1.nzval@.len() == nz,
             forall|s: int| 0 <= s < nz && !sparse_slot(maps, s) ==> #[trigger] KKT.nzval@[s] == K1.nzval@[s],
             forall|s: int| 0 <= s < nz && !sparse_slot(maps, s) ==> #[trigger] ldl.copy@[s] == C1[s],
+            ldl.log@ == old(self).ldlsolver.log@ + sx_events(cs, maps, it.index@ as int),
+            // (K2 / C2: the state the refactor step starts from, tracked here so that no annotation has to anchor on that statement)
+            K2 == *KKT, C2 == ldl.copy@,
 //@body_start 1
             let ghost gi = it.index@ as int;
             let ghost Ka = KKT.nzval@;
             let ghost Ca = ldl.copy@;
+            let ghost La = ldl.log@;
             proof {
                 assert(*cone == cs[gi]);
                 lemma_sparse_before_mono(cs, gi + 1, cs.len() as int); lemma_sparse_before_mono(cs, 0, gi);
@@ -662,15 +687,15 @@ it
             }
 //@body_end 1
             proof {
+                K2 = *KKT; C2 = ldl.copy@;
                 if cs[gi].sparse_s() {
                     let j = sparse_before(cs, gi);
                     assert forall|s: int| 0 <= s < nz && !sparse_slot(maps, s) implies #[trigger] KKT.nzval@[s] == K1.nzval@[s] by { assert(!map_slot(maps[j], s)); assert(Ka[s] == K1.nzval@[s]); }
                     assert forall|s: int| 0 <= s < nz && !sparse_slot(maps, s) implies #[trigger] ldl.copy@[s] == C1[s] by { assert(!map_slot(maps[j], s)); assert(Ca[s] == C1[s]); }
+                    assert(ldl.log@ == La.push((cs[gi], maps[j])));
+                    assert(ldl.log@ =~= old(self).ldlsolver.log@ + sx_events(cs, maps, gi + 1));
                 }
             }
-//@before "self.regularize_and_refactor(settings)"
-        let ghost K2 = self.KKT;
-        let ghost C2 = self.ldlsolver.copy@;
 //@post
         proof {
             assert(cones.hs_rel(old(self).Hsblocks@, hs) && self.Hsblocks@ == negated(hs));
